@@ -108,7 +108,8 @@ class Report:
                         out.append(json.loads(line))
         return out
 
-    def finish(self, write_evidence=True, checker_cmd=''):
+    def mark_known(self):
+        """flag the refuted obligations that the committed known-findings file lists (status `known` only)"""
         known = [k for k in self.load_known()
                  if k.get('status') == 'known' and k.get('property') == self.prop]
         kkeys = {(k['rule'], k['function'], norm(k['construct'])) for k in known}
@@ -116,6 +117,10 @@ class Report:
         for o in refuted:
             if o.key() in kkeys:
                 o.known = True
+        return known, refuted
+
+    def finish(self, write_evidence=True, checker_cmd=''):
+        known, refuted = self.mark_known()
         new = [o for o in refuted if not o.known]
         lines = []
         rc = 0
